@@ -388,6 +388,11 @@ class Interp:
         if k == "field":
             i = e[1]
             fty = e[3] if len(e) > 3 else ""
+            n_ = 0
+            while isinstance(v, Ptr) and n_ < 4:
+                # a field of a reference: one of the modelled calls (Deref::deref on `&&T`, `impl Deref` parameters) peeled one level less than the MIR did
+                v = self.deref(p, v)
+                n_ += 1
             if fty.startswith(("core::ptr::unique::Unique<", "core::ptr::non_null::NonNull<", "*const ", "*mut ")) and not (
                     isinstance(v, Variant) and v.adt and ("Unique" in v.adt or "NonNull" in v.adt)):
                 # Box<T> is modelled as T: the raw-pointer plumbing of an elaborated box deref is transparent
